@@ -61,7 +61,7 @@ man = {
         {"name": "pyvc", "path": "pyvc/", "serves_properties": served,
          "kind_free_text": "contract-based deductive verifier for the real menelaus source: Python AST -> verification "
                            "conditions (path-sensitive symbolic execution, loops cut by invariants, modular callee "
-                           "contracts, ghost state, lemmas by induction, two-run relational obligations), discharged by "
+                           "contracts, ghost state, lemmas by induction, two-run relational obligations; sampling loops / library-heavy statement blocks can be abstracted by the contract - body not verified, recorded per run as an assumption), discharged by "
                            "z3 5.1 after lambda lifting (see DESIGN.md 14.6), the Debian z3 4.8.12 binary and cvc5 for its unknowns"},
         {"name": "bounded", "path": "bounded/", "serves_properties": served,
          "kind_free_text": "the same sidecar contracts evaluated concretely (z3-free) as run-time monitors on the real "
